@@ -63,11 +63,12 @@ def Val.asString : Val → String
   | .i v => intToDec v
   | .f m => milliToGo m
   | .sl v => joinWith sep0 v
-  | .il v => joinWith sep0 (v.map intToDec)
+  | .il v => "[" ++ joinWith sep0 (v.map intToDec) ++ "]"    -- strings.Fields(fmt.Sprint(list)) joined with \x00
   | .ml v => "[" ++ joinWith " " (v.map fun (a, b) => "[" ++ a ++ " " ++ b ++ "]") ++ "]"
   | .jl _ => "[]"
   | .cv _ _ => ""
   | .crash _ => ""
+  | .emptyList t => t
 
 /-! ### leaf matching -/
 
